@@ -505,8 +505,12 @@ class LDAPClient(LDAPSession):
             authentication=authentication,
         )
 
+        # Only enter BINDING once the request has been accepted, a closed
+        # session must stay closed.
+        msg_id = self._send(msg)
         self.state = SessionState.BINDING
-        return self._send(msg)
+
+        return msg_id
 
     def extended_request(
         self,
